@@ -124,6 +124,10 @@ struct Run<'a> {
     /// the stream outgrew the scenario's bound (a processor feeding itself): stop acting, cut the trace
     overflow: bool,
     max_frames: usize,
+    /// what was owed when a wait first ran into the long timeout: later waits of the run are short
+    /// (the run already carries a "missing" verdict), and if those items arrive after all the run
+    /// is discarded as a tool error (the machine was too slow to judge absence)
+    first_timeout: Option<Vec<String>>,
     nact: usize,
     log: Vec<Value>,
 }
@@ -460,7 +464,12 @@ impl<'a> Run<'a> {
             if p.is_empty() && last_growth.elapsed() >= settle {
                 return (false, vec![], t0.elapsed().as_millis());
             }
-            if t0.elapsed() >= long {
+            let shorten = self.first_timeout.is_some() && !self.sc["no_shorten"].as_bool().unwrap_or(false);
+            let long_now = if shorten { long.min(Duration::from_millis(3000)) } else { long };
+            if t0.elapsed() >= long_now {
+                if !p.is_empty() && self.first_timeout.is_none() {
+                    self.first_timeout = Some(p.clone());
+                }
                 return (!p.is_empty(), p, t0.elapsed().as_millis());
             }
             std::thread::sleep(poll);
@@ -656,7 +665,8 @@ pub fn run_scenario(root: &Path, sc: &Value) -> Vec<Value> {
         restarts: vec![],
         died: false,
         overflow: false,
-        max_frames: sc["max_frames"].as_u64().unwrap_or(400) as usize,
+        first_timeout: None,
+        max_frames: sc["max_frames"].as_u64().unwrap_or(160) as usize,
         nact: 0,
         log: vec![],
     };
@@ -684,6 +694,12 @@ pub fn run_scenario(root: &Path, sc: &Value) -> Vec<Value> {
         }
     }
     let (timeout, pend, waited) = run.wait_quiet(tm.final_settle, tm.long, tm.poll);
+    let timeout = timeout || run.first_timeout.is_some();
+    let head = |x: &String| x.split(" (").next().unwrap_or("").to_string();
+    let late = match &run.first_timeout {
+        Some(first) => !run.overflow && !first.iter().any(|f| pend.iter().any(|q| head(q) == head(f))),
+        None => false,
+    };
     // stop the server, then read the stream through a plain worker: nothing can move any more
     let server_died = run.died;
     if let Some(w) = run.w.take() {
@@ -707,7 +723,7 @@ pub fn run_scenario(root: &Path, sc: &Value) -> Vec<Value> {
         return evs;
     };
     // an overflowing stream is cut: the observer judges the prefix and demands nothing absent
-    let cut = if run.overflow { frames.len().min(run.max_frames + 40) } else { frames.len() };
+    let cut = if run.overflow { frames.len().min(run.max_frames + 20) } else { frames.len() };
     let frames = &frames[..cut];
     if server_died {
         // the worker process itself went away while serving: a harness-level failure (a panic in
@@ -774,6 +790,9 @@ pub fn run_scenario(root: &Path, sc: &Value) -> Vec<Value> {
     }
     evs.push(json!({"e": "quiescent", "s": sid, "timeout": timeout, "pending": pend, "waited_ms": waited as u64,
                     "restarts": run.restarts, "nframes": frames.len(), "log": run.log, "overflow": run.overflow,
+                    // what was owed at the first long timeout is no longer owed: later (shortened) waits of
+                    // this run cannot be trusted - proc.py runs the scenario again with uniform long waits
+                    "late": late,
                     "cycles": sc["gen_cycles"].as_u64().unwrap_or(1)}));
     evs
 }
